@@ -27,6 +27,10 @@ ID3 = ident("ident3", 0xF102, [dict(kind="value", name="st", dop=dict(
     complex="structure", params=[V("a"), dict(kind="value", name="serial", dop=BF)]))])
 ID4 = ident("ident4", 0xF103, [dict(kind="value", name="items", dop=dict(
     complex="eopfield", structure=dict(params=[V("code")])))])
+ID5 = ident("ident5", 0xF104, [dict(kind="value", name="f", dop={"dt": "A_FLOAT32", "bl": 32})])
+ID6 = ident("ident6", 0xF105, [dict(kind="value", name="info", dop=dict(
+    complex="structure", params=[V("hw"), dict(kind="value", name="boards", dop=dict(
+        complex="eopfield", structure=dict(params=[V("rev"), V("x")])))]))])
 NEGR = rq(C("sid", 0x7F), MR("rsid"), V("nrc"))
 
 
@@ -34,7 +38,7 @@ def mp(expected, svc, snref=None, path=None):
     return {"expected": expected, "service": svc, "snref": snref, "path": path}
 
 
-def variant(name, patterns, services=(ID1, ID2, ID3, ID4), gnr=()):
+def variant(name, patterns, services=(ID1, ID2, ID3, ID4, ID5, ID6), gnr=()):
     return {"name": name, "patterns": patterns, "services": list(services), "gnr": list(gnr)}
 
 
@@ -53,6 +57,10 @@ CANDIDATES = {
                        variant("v2", [[mp("5", "ident1", "v")]])],
     "noncanonical-expected": [variant("v1", [[mp("05", "ident1", "v")]]),
                               variant("v2", [[mp("5", "ident1", "v")]])],
+    "float-value": [variant("v1", [[mp("1.5", "ident5", "f")]]), variant("v2", [[mp("2.5", "ident5", "f")]]),
+                    variant("v3", [[mp("-0.25", "ident5", "f")]])],
+    "three-level-path": [variant("v1", [[mp("3", "ident6", None, "info.boards.rev")]]),
+                         variant("v2", [[mp("9", "ident6", None, "info.hw")]])],
     "shared-and-distinct": [variant("v1", [[mp("1", "ident1", "v"), mp("2", "ident2", "w")]]),
                             variant("v2", [[mp("1", "ident1", "v"), mp("3", "ident2", "w")]]),
                             variant("v3", [[mp("4", "ident2", "w")]])],
@@ -93,74 +101,91 @@ def _req_bytes(s):
 
 
 def _ref_value_matches(m, v, resp):
-    """reference: does some response layout of the identification service yield the expected
-    value at the referenced output parameter?  (decoding = layout only: a mismatching constant
-    does not make the library's decoder fail, it only warns)"""
+    """reference: does some response layout of the identification service decode the message and
+    yield the expected value at the referenced output parameter?  (decoding = layout only: a
+    mismatching constant does not make the library's decoder fail, it only warns)"""
     s = _svc(v, m["service"])
     results = []
     for r in s.get("pos", []) + s.get("neg", []) + list(v["gnr"]):
         path = [m["snref"]] if m["snref"] else m["path"].split(".")
-        results.append(_ref_lookup(r["params"], path, resp, 0, m["expected"]))
+        dec = _ref_decode(r["params"], resp, 0)
+        if dec is None:
+            continue  # the layout does not fit -> DecodeError -> this response is skipped
+        results.append(_ref_match(dec[0], path, m["expected"]))
     return s_or(*results) if results else False
 
 
-def _size(p):
-    if p["kind"] == "const":
-        return p["type"]["bl"] // 8
-    if p["kind"] == "matchreq":
-        return p["len"]
-    d = p["dop"]
-    if d.get("complex") == "structure":
-        return sum(_size(q) for q in d["params"])
-    if d.get("complex") == "eopfield":
-        return None
-    return d["bl"] // 8
-
-
-def _ref_lookup(params, path, resp, pos, expected):
-    import re
-    total = 0
+def _ref_decode(params, resp, pos):
+    """(dict of leaf descriptions, end position) or None if the message is too short / ends
+    inside an item.  Leaves are (kind, raw bytes)."""
+    out = {}
     for p in params:
-        sz = _size(p)
-        if sz is None:
-            break
-        total += sz
-    if len(resp) < pos + total:
-        return False  # layout does not fit -> DecodeError -> this response is skipped
-    for p in params:
-        sz = _size(p)
-        if p["name"] == path[0]:
-            if p["kind"] != "value":
-                return False
+        if p["kind"] == "const":
+            n = p["type"]["bl"] // 8
+            if len(resp) < pos + n:
+                return None
+            out[p["name"]] = ("int", resp[pos:pos + n])
+            pos += n
+        elif p["kind"] == "matchreq":
+            if len(resp) < pos + p["len"]:
+                return None
+            out[p["name"]] = ("int", resp[pos:pos + p["len"]])
+            pos += p["len"]
+        else:
             d = p["dop"]
-            if d.get("complex") == "structure":
-                return _ref_lookup(d["params"], path[1:], resp, pos, expected)
-            if d.get("complex") == "eopfield":
-                item = d["structure"]["params"]
-                isz = sum(_size(q) for q in item)
-                hits = []
-                cur = pos
-                if (len(resp) - pos) % isz:
-                    return False  # trailing partial item -> DecodeError
-                while cur + isz <= len(resp):
-                    hits.append(_ref_lookup(item, path[1:], resp, cur, expected))
-                    cur += isz
-                return s_or(*hits) if hits else False
-            if len(path) != 1:
-                return False
-            raw = resp[pos:pos + sz]
-            if d["dt"] == "A_BYTEFIELD":
-                if not re.fullmatch(r"[0-9A-Fa-f]*", expected) or len(expected) != 2 * sz:
-                    return False
-                return raw == bytes.fromhex(expected)
-            if not re.fullmatch(r"-?(0|[1-9][0-9]*)", expected) or expected == "-0":
-                return False
-            val = 0
-            for i in range(sz):
-                val = (val << 8) | raw[i]
-            return val == int(expected)
-        pos += sz
-    return False
+            k = d.get("complex")
+            if k == "structure":
+                sub = _ref_decode(d["params"], resp, pos)
+                if sub is None:
+                    return None
+                out[p["name"]], pos = sub
+            elif k == "eopfield":
+                items = []
+                while pos < len(resp):
+                    sub = _ref_decode(d["structure"]["params"], resp, pos)
+                    if sub is None:
+                        return None
+                    items.append(sub[0])
+                    pos = sub[1]
+                out[p["name"]] = items
+            else:
+                n = d["bl"] // 8
+                if len(resp) < pos + n:
+                    return None
+                kind = {"A_BYTEFIELD": "bytes", "A_FLOAT32": "f32"}.get(d["dt"], "int")
+                out[p["name"]] = (kind, resp[pos:pos + n])
+                pos += n
+    return out, pos
+
+
+def _ref_match(value, path, expected):
+    import re
+    if isinstance(value, list):
+        hits = [_ref_match(x, path, expected) for x in value]
+        return s_or(*hits) if hits else False
+    if isinstance(value, dict):
+        if not path or path[0] not in value:
+            return False
+        return _ref_match(value[path[0]], path[1:], expected)
+    if path:
+        return False
+    kind, raw = value
+    if kind == "bytes":
+        if not re.fullmatch(r"[0-9A-Fa-f]*", expected) or len(expected) != 2 * len(raw):
+            return False
+        return raw == bytes.fromhex(expected)
+    if kind == "f32":
+        import z3
+        bits = z3.Concat(*[core.bv8(core.low8(raw[i])) for i in range(4)])
+        val = z3.fpToFP(core.RNE, z3.fpBVToFP(bits, core.F32), core.F64)
+        diff = z3.fpAbs(z3.fpSub(core.RNE, z3.FPVal(float(expected), core.F64), val))
+        return core.mkbool(z3.fpLT(diff, z3.FPVal(1e-8, core.F64)))
+    if not re.fullmatch(r"-?(0|[1-9][0-9]*)", expected) or expected == "-0":
+        return False
+    val = 0
+    for i in range(len(raw)):
+        val = (val << 8) | raw[i]
+    return val == int(expected)
 
 
 def run_match(sx, cfg, env):
